@@ -77,13 +77,25 @@ type Pom struct {
 	Mgmt     []MDep    `json:"mgmt,omitempty"`
 	Props    []Prop    `json:"props,omitempty"`
 	Profiles []Profile `json:"profiles,omitempty"`
+	// EmptyMgmt: with no managed dependencies, still render an empty <dependencyManagement/> element.
+	EmptyMgmt bool `json:"empty_mgmt,omitempty"`
 }
 
 // Manifest is the project under remediation.
 type Manifest struct {
 	Npm    []NpmEntry `json:"npm,omitempty"`
 	Pom    *Pom       `json:"pom,omitempty"`
-	Parent *Pom       `json:"parent,omitempty"` // local parent POM at ../parent/pom.xml
+	Parent *Pom       `json:"parent,omitempty"` // local parent POM at ../<ParentDir>/pom.xml
+	// ParentDir is the directory name of the local parent ("" = "parent"); names with an '@'
+	// are legal and what the library's origin encoding trips over.
+	ParentDir string `json:"parent_dir,omitempty"`
+}
+
+func (m *Manifest) parentDir() string {
+	if m.ParentDir == "" {
+		return "parent"
+	}
+	return m.ParentDir
 }
 
 // Aff lists the affected versions of one package explicitly.
@@ -387,14 +399,15 @@ func renderDeps(b *strings.Builder, ind string, deps []MDep) {
 	b.WriteString(ind + "</dependencies>\n")
 }
 
-func renderPom(p *Pom, isParent, hasParent bool) []byte {
+func renderPom(p *Pom, isParent bool, parentDir string) []byte {
+	hasParent := parentDir != ""
 	var b strings.Builder
 	b.WriteString("<project>\n  <modelVersion>4.0.0</modelVersion>\n")
 	if isParent {
 		b.WriteString("  <groupId>verif</groupId>\n  <artifactId>parent</artifactId>\n  <version>1.0.0</version>\n  <packaging>pom</packaging>\n")
 	} else {
 		if hasParent {
-			b.WriteString("  <parent>\n    <groupId>verif</groupId>\n    <artifactId>parent</artifactId>\n    <version>1.0.0</version>\n    <relativePath>../parent/pom.xml</relativePath>\n  </parent>\n")
+			b.WriteString("  <parent>\n    <groupId>verif</groupId>\n    <artifactId>parent</artifactId>\n    <version>1.0.0</version>\n    <relativePath>../" + parentDir + "/pom.xml</relativePath>\n  </parent>\n")
 		}
 		b.WriteString("  <groupId>verif</groupId>\n  <artifactId>root</artifactId>\n  <version>1.0.0</version>\n")
 	}
@@ -404,6 +417,9 @@ func renderPom(p *Pom, isParent, hasParent bool) []byte {
 			b.WriteString("    <" + pr.K + ">" + pr.V + "</" + pr.K + ">\n")
 		}
 		b.WriteString("  </properties>\n")
+	}
+	if len(p.Mgmt) == 0 && p.EmptyMgmt {
+		b.WriteString("  <dependencyManagement>\n  </dependencyManagement>\n")
 	}
 	if len(p.Mgmt) > 0 {
 		b.WriteString("  <dependencyManagement>\n")
@@ -449,14 +465,18 @@ func (w *World) writeProject(dir string, m *Manifest) (string, error) {
 		return path, os.WriteFile(path, renderPackageJSON(m.Npm), 0o644)
 	}
 	if m.Parent != nil {
-		if err := os.MkdirAll(filepath.Join(dir, "parent"), 0o755); err != nil {
+		if err := os.MkdirAll(filepath.Join(dir, m.parentDir()), 0o755); err != nil {
 			return "", err
 		}
-		if err := os.WriteFile(filepath.Join(dir, "parent", "pom.xml"), renderPom(m.Parent, true, false), 0o644); err != nil {
+		if err := os.WriteFile(filepath.Join(dir, m.parentDir(), "pom.xml"), renderPom(m.Parent, true, ""), 0o644); err != nil {
 			return "", err
 		}
 	}
-	return path, os.WriteFile(path, renderPom(m.Pom, false, m.Parent != nil), 0o644)
+	pd2 := ""
+	if m.Parent != nil {
+		pd2 = m.parentDir()
+	}
+	return path, os.WriteFile(path, renderPom(m.Pom, false, pd2), 0o644)
 }
 
 // describe is the abbreviated, human-readable form of a world for evidence and details.
@@ -483,6 +503,9 @@ func (w *World) describe() string {
 			for _, pr := range p.Props {
 				parts = append(parts, "prop "+pr.K+"="+pr.V)
 			}
+			if p.EmptyMgmt && len(p.Mgmt) == 0 {
+				parts = append(parts, "empty <dependencyManagement/>")
+			}
 			for _, pf := range p.Profiles {
 				for _, d := range pf.Deps {
 					act := ""
@@ -494,7 +517,7 @@ func (w *World) describe() string {
 			}
 			return strings.Join(parts, "; ")
 		}
-		man = "pom{" + f(w.Manifest.Pom) + "} parent{" + f(w.Manifest.Parent) + "}"
+		man = "pom{" + f(w.Manifest.Pom) + "} parent(../" + w.Manifest.parentDir() + "){" + f(w.Manifest.Parent) + "}"
 	}
 	var vs []string
 	for _, v := range w.Vulns {
